@@ -6,16 +6,18 @@
    proofs in Proofs/Device*.v.  `valid_op` = client commands are the nine targeted ones, dev_initial_connect happens once (HInit);
    `cfg_ok` = what the parser guarantees (login script exists: F14; blocks non-empty; formats %s/%%-only) + formatted send strings fit 64 KiB. *)
 
-(* OPEN *) (* C07_no_hang for ALL configurations is FALSE of the model: see C07_no_hang_refuted (the fuel of _process_action's loop, 4096
-   iterations per device and pass, is a modelling artefact: the C loop has no bound and terminates because every iteration finishes one
-   statement of a finite script over a finite plug list; the witness needs 65 plugs under two nested foreachplug).  The measure that
-   bounds the number of iterations (potential of the exec stacks: remaining statements weighted by remaining plugs) is described in
-   DESIGN / the report; its mechanisation is open, so the theorems say `Ok or Hang`.  R-DEV shows a Hang as a mismatch. *)
+(* C07_no_hang for ALL configurations is FALSE of the model: C07_no_hang_refuted (the fuel of _process_action's loop, 4096 iterations per
+   device and pass, is a modelling artefact: the C loop has no bound; the witness needs 65 plugs under two nested foreachplug).  What holds:
+   C07_no_hang_bounded / C07_pass_no_hang - the loop never runs out of fuel f when the POTENTIAL of the queue (Psi: remaining statements,
+   a foreach weighted by the plugs it still has to visit) is below f and blocks are nested less than 8 deep; each iteration that stays
+   in the loop pays off at least one unit (the termination measure of the C loop).  R-DEV shows a Hang as a mismatch. *)
+(* OPEN *) (* a static bound (from the configuration alone) on Psi of every reachable queue - needs `Phi a <= cost of a's script` as an invariant
+   from creation on; and making the model's fuel state-dependent (Psi + 2) so that Hang disappears for every configuration of depth < 8. *)
 (* OPEN *) (* C07_others_usable is C05's; the telnet filter (device_tcp.c) and cbuf are C09's; device_tcp.c / device_pipe.c descriptor
    bookkeeping is abstracted (stub transports: the connect methods answer with a plan) and only exercised by the pmsim monitors. *)
 From Coq Require Import List NArith ZArith Bool Lia.
 From PM Require Import Base.Bytes Base.Outcome Base.Dec Gen.GenConsts Gen.GenCbuf Model.ScriptAst Model.Enqueue Model.Script Model.Device
-  Model.DevHarness Proofs.DeviceProofs Proofs.DeviceStmt Proofs.DeviceStmtG Proofs.DeviceInv Proofs.DeviceInvG Proofs.DeviceRun Proofs.DeviceRunG Proofs.DeviceTimer Proofs.DeviceLocal Proofs.DeviceThms.
+  Model.DevHarness Proofs.DeviceProofs Proofs.DeviceStmt Proofs.DeviceStmtG Proofs.DeviceInv Proofs.DeviceInvG Proofs.DeviceRun Proofs.DeviceRunG Proofs.DeviceTimer Proofs.DeviceLocal Proofs.DeviceThms Proofs.DeviceMask Proofs.DeviceFuel.
 Import ListNotations.
 Local Open Scope Z_scope.
 
@@ -155,6 +157,28 @@ Proof.
     + eexists. split; [vm_compute; reflexivity|cbn [length]; unfold MAX_DEV_BUF; lia].
 Qed.
 
+(* TERMINATION MEASURE of _process_action's loop.  P bounds the length of every plug list a foreach walks (DPL), D < 8 the nesting of blocks.
+   Psi d = sum over the queued actions of Phi = sum over the exec stack of what each context still owes (hc).  For ANY fuel above Psi the
+   loop ends (Ok, never Hang); in particular with the model's 4096 (C07_pass_no_hang). *)
+Theorem C07_no_hang_bounded : forall (rmatch : text -> text -> option pmatch) (compress : list text -> text) (sc : bool) (P : nat), (1 <= P)%nat ->
+  forall (D : nat), (D < 8)%nat -> forall fuel now d store tmo plans acc,
+  DInvG compress d -> DPL P D d -> tmo_pos tmo -> 0 <= dv_retry_count d -> (Psi P d < fuel)%nat ->
+  match process_action rmatch compress sc fuel now d store tmo plans acc with Hang _ => False | _ => True end.
+Proof.
+  exact process_action_no_hang.
+Qed.
+Print Assumptions C07_no_hang_bounded.
+
+Theorem C07_pass_no_hang : forall (rmatch : text -> text -> option pmatch) (compress : list text -> text) (sc : bool) (P : nat), (1 <= P)%nat ->
+  forall (D : nat), (D < 8)%nat -> forall now d store tmo pin,
+  DInvG compress d -> tmo_pos tmo -> 0 <= dv_retry_count d ->
+  (forall d3 t3 pl e12, pp_front now d tmo pin = Ok (d3, t3, pl, e12) -> DPL P D d3 /\ (Psi P d3 < 4096)%nat) ->
+  match post_poll_one rmatch compress sc now d store tmo pin with Hang _ => False | _ => True end.
+Proof.
+  exact post_poll_one_no_hang.
+Qed.
+Print Assumptions C07_pass_no_hang.
+
 (* the fuel of the model CAN run out on a legal configuration (so `Hang` in the theorems above is not vacuous, and is an artefact of the
    model, not a behaviour of the C): 65 plugs, login script foreachplug { foreachplug { setplugstate } }: 65 * 66 + 1 = 4291 statement rounds
    in the pass that follows the connect.  With 62 plugs (3907 rounds) the same pass completes and the device is logged in. *)
@@ -187,3 +211,11 @@ Example C07_telnet_replies_example :
   exists d' st' t' evs, post_poll_one ex_rmatch_ok ex_compress false 1000000 ex_tel_dev [] None ex_tel_pin = Ok (d', st', t', evs) /\
     sd_to (dv d') = [255; 252; 1; 255; 251; 3]%N ++ bslit "login\n".
 Proof. vm_compute. eexists _, _, _, _. repeat split. Qed.
+
+(* non-vacuity of C07_no_hang_bounded: the potential of the nested-foreach login is 62 * 63 + 1 = 3907 < 4096 with 62 plugs and
+   65 * 66 + 1 = 4291 >= 4096 with 65 (exactly the two cases of C07_no_hang_refuted) *)
+Example C07_potential_example :
+  costs 62 [ForeachPlug [ForeachPlug [SetPlugState None 1 2 []]]] = 3907%nat /\ costs 65 [ForeachPlug [ForeachPlug [SetPlugState None 1 2 []]]] = 4291%nat /\
+  Phi 62 (create_action [ForeachPlug [ForeachPlug [SetPlugState None 1 2 []]]] PM_LOG_IN None 0 false false false None) = 3907%nat /\
+  depths [ForeachPlug [ForeachPlug [SetPlugState None 1 2 []]]] = 2%nat.
+Proof. vm_compute. repeat split. Qed.
